@@ -155,5 +155,7 @@ def init(table, reload=False):
         return
     table.properties.append('crystal_structure')
 
+    # Each table gets its own copy so that changing the structure of an
+    # element in one table does not change it in the others.
     for Z, struct in enumerate(crystal_structures):
-        table[Z].crystal_structure = struct
+        table[Z].crystal_structure = dict(struct) if struct is not None else None
